@@ -8,6 +8,8 @@ invalid_transactions membership test and the auxiliary_data_set key comparison, 
 import json
 import os
 import re
+from pv.panic import place_field_steps
+from pv.mir import op_place
 from pv.program import Program
 from pv.report import Result, finish
 from pv.tabulate import tabulate, cond_variants
@@ -314,6 +316,29 @@ def run(tier):
         else:
             res.violation(key, "%s does not iterate the block's transaction bodies with %s_clone_tx_at (calls %s)" % (g.name, era, kid_calls), where="%s:%s" % (g.file, g.line), rule="R-TABLE")
     res.trusted += ["spec/block_eras.json"]
+    # (d) a transaction's parts do not depend on its validity flag: "the i-th traversed transaction consists of the i-th body, the
+    # i-th witness set and the auxiliary data keyed by i ... marked invalid exactly when i is listed" — the flag is one more part,
+    # it does not gate the others.  Only the UTxO-effect accessors of C31 (consumes / produces / produces_at) may branch on it.
+    PT = Program(crates=["pallas_traverse"]) if "pallas_traverse" not in getattr(P, "crates", []) else P
+    EFFECTS = {"consumes", "produces", "produces_at", "is_valid"}
+    n_acc = 0
+    for f in PT.find(r"^pallas_traverse::tx::<impl pallas_traverse::MultiEraTx<'b>>::\w+$"):
+        if f.name in EFFECTS:
+            continue
+        n_acc += 1
+        uses = [flow.callee_name(t) for bi, t in f.calls() if re.search(r"MultiEraTx.*::is_valid$|^pallas_traverse::tx::is_valid$", flow.callee_name(t) + " " + (t.get("f") or ""))]
+        reads = any(st[0] == "a" and any(n == "success" for _, n in place_field_steps(f, st[2]["p"])) for bi, si, st in f.statements()
+                    if st[0] == "a" and st[2]["k"] in ("ref",) and not isinstance(st[2]["p"], int)) or \
+            any(st[0] == "a" and st[2]["k"] == "use" and (op_place(st[2]["x"]) is not None) and not isinstance(op_place(st[2]["x"]), int)
+                and any(n == "success" for _, n in place_field_steps(f, op_place(st[2]["x"]))) for bi, si, st in f.statements())
+        key = "parts-independent-of-validity:%s" % f.name
+        if uses or reads:
+            res.violation(key, "MultiEraTx::%s consults the phase-2 validity flag: a part of the transaction (body, witnesses, auxiliary data, ...) is exposed differently "
+                          "for a transaction listed as invalid, although the block carries that part at its index all the same" % f.name,
+                          where="%s:%s" % (f.file, f.line), rule="R-FRAME")
+    if n_acc:
+        res.ok("parts-independent-of-validity", "R-FRAME", "%d MultiEraTx accessors other than the UTxO-effect ones never consult the validity flag" % n_acc)
+    res.floor("MultiEraTx accessors inspected", n_acc, 20)
     return finish(res,
                   explanation="Composes four code tables (tag probe, decoder dispatch, constructed variant/era, era()) and compares the result with the wrapper-tag table; "
                               "checks by provenance that one index selects body, witness set, validity flag and auxiliary data. Does not decide txs().len() == tx_count() for malformed blocks.",
